@@ -150,6 +150,10 @@ def run(ctx, build):
                     shape = (g + oth) if side == 'pos_only' else (oth + g)
                     if int(np.prod(shape)) != exp.size or len(shape) < 2:
                         continue
+                    # with size-1 dimensions around, the "other" shape can coincide with a compatible one
+                    # ([4,4,2,1]+[2,2] reads as [4,4,2]+[1,2,2]): that request is legitimate, not an incompatible one
+                    if (side == 'pos_only' and shape[:len(given)] == list(given)) or (side == 'spec_only' and shape[len(shape) - len(given):] == list(given)):
+                        continue
                     bad = np.arange(exp.size).reshape(shape)
                     m = {'layout': lay.describe(), 'case': '%s with N-D shape %s' % (side, shape), 'nd': nd_kind}
                     obs = call(bad, pos if side == 'pos_only' else None, spec if side == 'spec_only' else None, nd_kind, m)
